@@ -107,7 +107,7 @@ P = {
          'zeros).', '§7 C10', 'second model instance + correspondence; exact-class link theorem; verified scene checker'),
  'C11': ('proof', 'Per run: results fed back as operands (left or right, with an independent operand or A/B again) give the pointwise '
          'combination, decided for every point by the verified checker. The composition step is proved (C11_chain_law: C01 of the first '
-         'call, C02\'s reading clause of its result and C01 of the second call give op\'(op(a,b),c) at every clear point).',
+         'call, C02\'s reading clause of its result and C01 of the second call give op\'(op(a,b),c) at every clear point); a result ring that passes through a vertex twice reads, by the even-odd rule of the next call, as the rings it is threaded from (C11_pinched_result_ring_reads_as_its_parts).',
          '§7 C11', 'Coq: composition theorem + verified scene checker on chained runs'),
  'C12': ('other', 'Audit + correspondence under histories and schedules: a syntactic purity audit of lib/src and 16 threads x rounds x cases in '
          'shuffled orders compared with the single-threaded value, a fresh process and the model\'s value; operands compared after every '
